@@ -5482,7 +5482,9 @@ class CodegenCtx:
             size_str = self._generate_buflike_length_expr(intexpr.ref)
             if ProgramData.do(ProgramFlag.UNSAFE_STRING_INDEXING):
                 return text
-            return f"((({index}) >= 0 && ({index}) < {size_str}) ? {text} : 0)"
+            # strings allocated on demand read as empty (all indices out of range) while they are unallocated
+            null_check = f" && state->c.{intexpr.ref.name}" if self._is_dynamic(intexpr.ref) and self._needs_on_demand_alloc(intexpr.ref) else ""
+            return f"((({index}) >= 0 && ({index}) < {size_str}{null_check}) ? {text} : 0)"
         elif isinstance(intexpr, LastCharIntegerExpr):
             return f"(inval)" # name of the last character value
         elif isinstance(intexpr, SumIntegerExpr):
